@@ -202,6 +202,14 @@ func (s *Store) Ite(c, a, b *Term) *Term {
 			return s.And(c, a)
 		}
 	}
+	if !s.Raw {
+		if a.Op == OpIte && a.Args[0] == c {
+			return s.Ite(c, a.Args[1], b)
+		}
+		if b.Op == OpIte && b.Args[0] == c {
+			return s.Ite(c, a, b.Args[2])
+		}
+	}
 	if !s.Raw && a.W > 0 {
 		if r, ok := s.iteConcat(c, a, b); ok {
 			return r
@@ -233,6 +241,9 @@ func (s *Store) Eq(a, b *Term) *Term {
 		}
 	}
 	if !s.Raw && a.W > 0 {
+		if r := s.liftIteConst(a, b, func(x, y *Term) *Term { return s.Eq(x, y) }); r != nil {
+			return r
+		}
 		if r, ok := s.eqConcat(a, b); ok {
 			return r
 		}
@@ -321,6 +332,11 @@ func (s *Store) Bin(op Op, a, b *Term) *Term {
 		}
 	}
 	w := a.W
+	if !s.Raw {
+		if r := s.liftIteConst(a, b, func(x, y *Term) *Term { return s.Bin(op, x, y) }); r != nil {
+			return r
+		}
+	}
 	if !s.Raw && w <= 64 {
 		switch op {
 		case OpBAnd:
@@ -448,6 +464,11 @@ func (s *Store) Cmp(op Op, a, b *Term) *Term {
 	}
 	if a == b {
 		return s.Bool(op == OpULe || op == OpSLe)
+	}
+	if !s.Raw {
+		if r := s.liftIteConst(a, b, func(x, y *Term) *Term { return s.Cmp(op, x, y) }); r != nil {
+			return r
+		}
 	}
 	return s.intern(Term{Op: op, Args: []*Term{a, b}})
 }
